@@ -691,6 +691,26 @@ case("record unpacked with **rec._asdict(): expanded to keywords", '''
 ''', 0)
 
 
+case("private module constants are inlined where they are not shadowed", '''
+    _KEY = "type"
+    _A, _B = 1, "b"
+    _TWICE = 1
+    _TWICE = 2
+    PUBLIC = "p"
+    def f(d):
+        return d.get(_KEY), _A, _B, _TWICE, PUBLIC
+    def g(_KEY):
+        return _KEY
+    def h():
+        _A = 5
+        return _A
+    def k():
+        return [(_B, x) for x in range(2)], (lambda _B: _B)(9)
+    def main():
+        return [f({"type": 3}), g(7), h(), k()]
+''', 0)
+
+
 def main():
     bad = 0
     for name, src, inlined in CASES:
